@@ -11,7 +11,7 @@ PLAN = {
     'thorough': {'runs': 150000, 'budget': 1100},
 }
 RULE = ('Generated programs plus 0-5 operator commands (pause, resume, stop '
-        'with each state, rerun, skip) issued at seeded steps through the '
+        'with each state, rerun, skip, external action-execution updates) issued at seeded steps through the '
         'engine API, duplicated and delayed result messages; ')
 FEATS = progcase.CORE + ('with_items', 'concurrency', 'retry', 'subwf',
                          'partial_joins')
@@ -24,7 +24,7 @@ REAL = ['mistral.api.controllers.v2 (execution, task, action_execution) '
 
 def gen_ops(rng, n_max=5, horizon=200, kinds=None):
     kinds = kinds or ['pause', 'resume', 'stop', 'rerun', 'skip', 'stop',
-                      'resume']
+                      'resume', 'action_update', 'action_update']
     ops = []
     for _ in range(rng.randint(0, n_max)):
         k = rng.choice(kinds)
@@ -39,6 +39,16 @@ def gen_ops(rng, n_max=5, horizon=200, kinds=None):
                                                  'SUCCESS', 'RUNNING']),
                             'index': rng.randint(0, 3)}
             op['reset'] = rng.random() < 0.5
+        if k == 'action_update':
+            # external completion / pause / resume of an action execution
+            # (PUT /v2/action_executions/<id>), also of one that finished
+            op['target'] = {'state': rng.choice(['RUNNING', 'RUNNING',
+                                                 'SUCCESS', 'ERROR', None]),
+                            'sync': rng.choice([None, None, False, True]),
+                            'index': rng.randint(0, 3)}
+            op['state'] = rng.choice(['SUCCESS', 'ERROR', 'CANCELLED',
+                                      'PAUSED', 'RUNNING', 'SUCCESS'])
+            op['output'] = {'ext': 'upd%d' % rng.randint(0, 9)}
         ops.append(op)
     return ops
 
